@@ -80,6 +80,27 @@ def _rebuild(key):
         return s
 
 
+class Opaque:
+    """An argument whose IDENTITY matters and that cannot be copied or pickled (a lock, a connection, a model handle):
+    plain Python hands the caller's own object to the functions, so must a DAG call."""
+
+    __slots__ = ("n",)
+
+    def __init__(self, *n):
+        self.n = n
+
+    def __repr__(self):
+        return "Opaque%r" % (self.n,)
+
+    def __bool__(self):
+        return zlib.crc32(repr(self.n).encode()) % 2 == 0
+
+    def _no(self, *a, **k):
+        raise TypeError("Opaque objects cannot be copied or pickled")
+
+    __deepcopy__ = __copy__ = __reduce_ex__ = __reduce__ = _no
+
+
 def _bin(op):
     def f(a, b):
         if OP_FAULT[0] is not None:
